@@ -26,7 +26,7 @@ def run(ck):
     ck.mc("MCSerializer", "C02_mc.cfg", workers=8, timeout=1200)
     ck.mc_must_fail("MCSerializer", "C02_asfound_nozero_exp.cfg", workers=4, timeout=600)
     exe = vlib.build("san", vlib.harness_sources(), "vh")
-    n = 3000 if thorough else 800
+    n = 12000 if thorough else 800
     per = 16 if thorough else 6
     tp = os.path.join(ck.dir, "v.ndjson")
     deaths = vlib.run_executions(exe, lambda st: ["c02", "drive", st, n, per], n, tp, timeout=1200)
